@@ -210,6 +210,7 @@ type Check struct {
 	Level       string // evidence level
 	Rule        string // how cases are enumerated and what counts as distinct/non-trivial
 	Assumptions []string
+	NodeStates  bool // report decision nodes of the schedule trees as states (pure SCHED checks)
 	Units       func(tier string) []Unit
 	Budget      func(tier string) time.Duration
 	Bounds      func(tier string) map[string]any
@@ -311,13 +312,20 @@ type Evidence struct {
 	Violations  int            `json:"violations"`
 }
 
+func statesOf(ck *Check, a *Acc) int64 {
+	if ck.NodeStates && a.Nodes > int64(len(a.States)) {
+		return a.Nodes
+	}
+	return int64(len(a.States))
+}
+
 func WriteEvidence(path string, ck *Check, tier string, seed int, a *Acc, unitStats []map[string]any, wall float64, nviol int) error {
 	cov := map[string]any{
 		"evaluations":                   a.Evaluations,
 		"distinct_nontrivial":           len(a.Nontrivial),
 		"rule":                          ck.Rule,
 		"samples":                       a.Samples,
-		"states":                        len(a.States),
+		"states":                        statesOf(ck, a),
 		"transitions":                   a.Transitions,
 		"traces_validated_against_impl": a.Evaluations,
 		"decision_nodes":                a.Nodes,
